@@ -257,7 +257,7 @@ func init() {
 		Count: func(tier string) int { return len(c08TruncCases()) }, Eval: func(tier string, i int) CaseResult { return c08Trunc(c08TruncCases()[i]) }})
 	RegisterCheck("C08", func(c *Ctx) {
 		c.Level = "fault_enumeration"
-		c.Rule = "for every (client kind, fault kind in {ctx cancel, reset, clean EOF, Close by another goroutine, child exit}, handler blocked or not, 1..2 pending calls): the fault is a thread whose single step is placed at every point of the exchange by DFS (sleep-set reduced, preemption bounded); plus truncation of the answer at every byte offset; oracle: every call returns promptly with an error or the complete correct result, never (nil,nil)/partial/panic, untouched calls succeed, and after Close no library goroutine, open response body or pending entry remains"
+		c.Rule = "for every (client kind, fault kind in {ctx cancel, reset, clean EOF, Close by another goroutine, child exit}, handler blocked or not, 1..2 pending calls, and the handshake itself pending against a server that stalls before the stream headers or withholds the initialize answer): the fault is a thread whose single step is placed at every point of the exchange by DFS (sleep-set reduced, preemption bounded); plus truncation of the answer at every byte offset; oracle: every call returns promptly with an error or the complete correct result, never (nil,nil)/partial/panic, untouched calls succeed, and after Close no library goroutine, open response body or pending entry remains"
 		c.Assume = append(c.Assume, "the stdio child is modelled by pipes plus the process-watcher effect; exec, signals, pids and OS file descriptors are not exercised", "connection release is judged on memnet response bodies", "virtual time: 'promptly' = returned at quiescence after the fault while the handler is still blocked")
 		c.Enumerate("c08/truncate")
 		for _, cfg := range c08Configs() {
@@ -266,6 +266,9 @@ func init() {
 				pb = c.Pick(1, 2) // stream-level faults wake every thread of the legacy SSE session at once
 			}
 			c.DFS(cfg.name(), explore.Bounds{Preempt: pb, Dev: 1, POR: true, MaxExec: c.Pick(4000, 400000)})
+		}
+		for _, cfg := range c08HsConfigs() {
+			c.DFS(cfg.name(), explore.Bounds{Preempt: c.Pick(2, 3), Dev: 0, POR: true, MaxExec: c.Pick(3000, 200000)})
 		}
 	})
 }
@@ -372,4 +375,115 @@ func c08Trunc(tc c08TruncCase) CaseResult {
 	cr.Violations = o.Violations
 	cr.Broken = o.Broken
 	return cr
+}
+
+// ---- the handshake itself as the pending call -------------------------------------------------
+
+type c08HsCfg struct {
+	Mode  string // ls sj ss io
+	Stall string // connect (legacy SSE: before the headers of the stream) | init (the answer to initialize is withheld)
+	Fault string // cancel | close
+}
+
+func (c c08HsCfg) name() string { return fmt.Sprintf("c08/handshake/%s/%s/%s", c.Mode, c.Stall, c.Fault) }
+
+func c08HsConfigs() []c08HsCfg {
+	var out []c08HsCfg
+	for _, ms := range [][2]string{{"ls", "connect"}, {"ls", "init"}, {"sj", "init"}, {"ss", "init"}, {"io", "init"}} {
+		for _, f := range []string{"cancel", "close"} {
+			out = append(out, c08HsCfg{ms[0], ms[1], f})
+		}
+	}
+	return out
+}
+
+// c08Handshake: Initialize is pending against a server that stalls; the fault (cancel of the
+// caller's context, or Close from another goroutine) is placed at every point by the explorer.
+func c08Handshake(prefix []int, cfg c08HsCfg) explore.Outcome {
+	var viol []explore.Violation
+	obs := &hx.Log{}
+	k := func(kind string) string { return fmt.Sprintf("%s:handshake:%s:%s:%s", kind, cfg.Mode, cfg.Stall, cfg.Fault) }
+	res := vsched.Run(cfgFor(prefix), func() {
+		ss := newScriptedServer(cfg.Mode)
+		gate := &hx.Flag{}
+		if cfg.Stall == "connect" {
+			ss.gateConnect = gate
+		} else {
+			ss.gateInit = gate
+		}
+		cl, err := ss.client()
+		if err != nil {
+			viol = append(viol, V("harness", "%v", err))
+			return
+		}
+		ctx, cancel := vcontext.WithCancel(context.Background())
+		var initErr error
+		done := &hx.Flag{}
+		vsched.Go("init", func() {
+			_, initErr = cl.Initialize(ctx, &mcp.InitializeRequest{})
+			done.Set()
+		})
+		closed := &hx.Flag{}
+		vsched.Go("fault", func() {
+			if cfg.Fault == "cancel" {
+				cancel()
+			} else {
+				cl.Close()
+				closed.Set()
+			}
+		})
+		vsched.Quiesce()
+		// Close does not abort an HTTP request that is already in flight on the caller's context
+		// (Streamable initialize POST): the caller's own cancel must then end it.
+		lenient := cfg.Fault == "close" && (cfg.Mode == "sj" || cfg.Mode == "ss")
+		if !done.Get() && !lenient {
+			viol = append(viol, V(k("call-hangs"), "Initialize is still pending after %s although the server never answers; blocked: %v", cfg.Fault, vsched.LiveThreads()))
+		}
+		vsched.SetBranching(false)
+		cancel()
+		vsched.Quiesce()
+		if !done.Get() {
+			viol = append(viol, V(k("call-never-returns"), "Initialize did not return even after its context was cancelled; blocked: %v", vsched.LiveThreads()))
+		} else if initErr == nil {
+			viol = append(viol, V(k("result-after-fault"), "Initialize succeeded although the server never completed the handshake"))
+		}
+		if !closed.Get() {
+			cdone := &hx.Flag{}
+			vsched.Go("close", func() { cl.Close(); cdone.Set() })
+			vsched.Quiesce()
+			if !cdone.Get() {
+				viol = append(viol, V(k("close-hangs"), "Close did not return; blocked: %v", vsched.LiveThreads()))
+			}
+		}
+		leakCheck := func(when string) {
+			if leaked := libraryThreads(vsched.LiveThreads()); len(leaked) > 0 {
+				viol = append(viol, V(k("goroutine-leak"), "%s these library goroutines are still alive: %v", when, leaked))
+			}
+			if ss.fab != nil {
+				for _, x := range ss.fab.OpenBodies() {
+					viol = append(viol, V(k("body-leak"), "%s the response body of %s %s is still open", when, x.Method, x.Path))
+					break
+				}
+			}
+			if p := mcp.VerifPending(cl); p["pending"] != 0 {
+				viol = append(viol, V(k("pending-leak"), "%s the client's pending table holds %d entries", when, p["pending"]))
+			}
+		}
+		leakCheck("after Close, with the server still stalled,")
+		// the server finally answers into the void: nothing may come back to life
+		gate.Set()
+		vsched.Quiesce()
+		leakCheck("after the late answer of the server")
+		obs.Add("done=%v err=%v", done.Get(), initErr != nil)
+		ss.stop()
+	})
+	return finishOutcome(res, obs, viol, true)
+}
+
+func init() {
+	for _, cfg := range c08HsConfigs() {
+		cfg := cfg
+		RegisterScenario(&Scenario{Name: cfg.name(), Run: func(p []int, m []vsched.ChoicePoint) explore.Outcome { return c08Handshake(p, cfg) },
+			Doc: fmt.Sprintf("%s client: Initialize pending against a server that stalls at %s || %s at an arbitrary point; then Close, leak accounting, late server answer", cfg.Mode, cfg.Stall, cfg.Fault)})
+	}
 }
